@@ -73,6 +73,14 @@ func (vc *VC) run() (err error) {
 			}
 			vc.assume("true", s)
 		}
+		for _, cl := range c.Assumes {
+			s, err := env.evalAssume(cl.Expr)
+			if err != nil {
+				return fmt.Errorf("%s: assumes %s: %v", vc.key, cl.Label, err)
+			}
+			vc.assume("true", s)
+			vc.assumptions["assumed in "+vc.key+" ("+cl.Label+"): "+cl.Src] = true
+		}
 		switch c.PanicsMode {
 		case "never":
 			vc.panicOK = "false"
@@ -91,6 +99,18 @@ func (vc *VC) run() (err error) {
 		}
 	} else if vc.mode == "safety" {
 		vc.panicOK = "false"
+	}
+	isInit := fn.Synthetic == "package initializer"
+	for _, gi := range vc.prog.contracts.ginvs {
+		if isInit {
+			continue // initialisers establish the invariants; they run before anything else of their package
+		}
+		s, err := env.evalAssume(gi.Cl.Expr)
+		if err != nil {
+			continue // mentions names not visible from this package
+		}
+		vc.assume("true", s)
+		vc.assumptions["global invariant "+gi.Pkg+"."+gi.Cl.Label+" (proved at the end of the package initialiser; its state is immutable afterwards)"] = true
 	}
 	for _, ax := range vc.prog.contracts.axioms {
 		if !vc.axiomApplies(ax) {
@@ -1066,6 +1086,11 @@ func (vc *VC) execUnOp(x *ssa.UnOp, h *Heap, reach string) {
 			}
 			return
 		}
+		if g, ok := x.X.(*ssa.Global); ok && g.Name() == "init$guard" {
+			// a package initialiser runs exactly once
+			vc.setVal(x, "false")
+			return
+		}
 		if g, ok := x.X.(*ssa.Global); ok {
 			et := g.Type().(*types.Pointer).Elem()
 			if _, isArr := et.Underlying().(*types.Array); isArr {
@@ -1520,6 +1545,19 @@ func (vc *VC) checkReturn(b *ssa.BasicBlock, results []Term, h *Heap, reach stri
 			vc.frameObligations(c, h, reach, sfx)
 		}
 	}
+	if vc.fn.Synthetic == "package initializer" {
+		genv := vc.retEnv(results, h)
+		for _, gi := range vc.prog.contracts.ginvs {
+			if gi.Pkg != shortPkg(vc.fn.Pkg.Pkg.Path()) {
+				continue
+			}
+			s, err := genv.evalGoal(gi.Cl.Expr)
+			if err != nil {
+				panic(evalError{"ginv " + gi.Cl.Label + ": " + err.Error()})
+			}
+			vc.oblige("ensures", "ginv."+gi.Cl.Label+sfx, gi.Cl.Tags, reach, s, gi.Cl.Src)
+		}
+	}
 	// exit clauses of enclosing loops
 	for hdr, n := range vc.loopHdr {
 		if !vc.loopBody[hdr][b] {
@@ -1560,7 +1598,7 @@ func (vc *VC) frameGoals(c *Contract, h *Heap) [][2]string {
 	a0 := vc.get(vc.entryHeap, "$alloc")
 	var out [][2]string
 	for _, comp := range sortedKeys(vc.compSortSet()) {
-		if comp == "$alloc" || strings.HasPrefix(comp, "Gcalls_") {
+		if comp == "$alloc" || strings.HasPrefix(comp, "Gcalls_") || strings.HasPrefix(comp, "Ghash_") {
 			continue // ghost state is outside every frame
 		}
 		cur := vc.get(h, comp)
